@@ -114,6 +114,7 @@ class Variants:
             "vr_ext_order_sorted": bool(probes.get("ext_order_sorted", False)),
             "vr_sock_int": not probes.get("sock_bool", True),
             "vr_positional_none": bool(probes.get("positional_empty_string", False)),
+            "vr_bundle20_recheck": not probes.get("bundle20_member_21_sco", True),
         }
 
     def coq_variant(self):
